@@ -208,7 +208,53 @@ def rule_shortcut(chk, prog):
   chk.at_least(rule, 2)
 
 
+def tracer_keys(t):
+  """Names of the tracers read below a term (`….tracers['name']`)."""
+  out = set()
+  for x in sym.walk(t):
+    if x.k == 'sub' and x.a[1].k == 'const' and isinstance(x.a[1].a[0], str) and x.a[0].k == 'attr' and x.a[0].a[1] == 'tracers':
+      out.add(x.a[1].a[0])
+  return out
+
+
+def rule_virtual_temperature(chk, prog):
+  """The tracers that load the virtual temperature of the temperature variation (R·T′·(1 + …)) must be the tracers of the
+  reference-temperature corrections (the T_ref·(…)·∇ln pₛ terms of *_tendency_due_to_humidity): a loading applied to T′ only
+  makes explicit + implicit depend on how T is split into T_ref + T′."""
+  rule = 'C04.7-virtual-temperature-loading'
+  for cname in ('MoistPrimitiveEquations', 'MoistPrimitiveEquationsWithCloudMoisture'):
+    cls = prog.cls(f'{PE}.{cname}')
+    ev = sym.Evaluator(prog, sym.Options(opaque=c11.EXPL_OPAQUE - {f'{PE}.{c}.{m}' for c in ('MoistPrimitiveEquations', 'MoistPrimitiveEquationsWithCloudMoisture', 'PrimitiveEquations')
+                                                                   for m in ('_virtual_temperature', '_get_specific_humidity', '_get_cloud_water', '_get_cloud_ice', '_reference_cloud_loading_terms')},
+                                         max_depth=6))
+    f = cls.find_method('curl_and_div_tendencies')
+    v, _, _ = ev.run(f, self_cls=cls)
+    site, loc = f'{PE}.{cname}', (cls.file, cls.lineno)
+    # factors that multiply temperature_variation · ∇ln pₛ in the momentum forcing
+    prods = [t for t in sym.walk(v) if t.k == 'bin' and t.a[0] == '*' and sym.contains(t, lambda z: z.k == 'attr' and z.a[1] == 'temperature_variation')
+             and sym.contains(t, lambda z: z.k == 'attr' and z.a[1] == 'cos_lat_grad_log_sp')]
+    chk.require(bool(prods), f'{site}.curl_and_div_tendencies: no T′·∇ln pₛ product found')
+    load_tv = set()
+    for pterm in prods:
+      load_tv |= tracer_keys(pterm)
+    refs = {}
+    for m in ('vorticity_tendency_due_to_humidity', 'divergence_tendency_due_to_humidity'):
+      g = cls.find_method(m)
+      gv, _, _ = ev.run(g, self_cls=cls)
+      # tracers that occur in a product with the reference temperature
+      keys = set()
+      for t in sym.walk(gv):
+        if t.k == 'bin' and t.a[0] == '*' and sym.contains(t, lambda z: z.k == 'attr' and z.a[1] in ('T_ref', 'reference_temperature')):
+          keys |= tracer_keys(t)
+      refs[m] = keys
+    for m, keys in refs.items():
+      chk.check(keys == load_tv, rule, f'{site}.{m}: the T_ref part of the pressure-gradient force is loaded by the same tracers as the T′ part',
+                f'T′ part: {sorted(load_tv)}; T_ref part: {sorted(keys)}', loc, str(sorted(load_tv)), str(sorted(keys)))
+  chk.at_least(rule, 4)
+
+
 def run(chk, prog, tier):
+  rule_virtual_temperature(chk, prog)
   rule_pairing(chk, prog)
   rule_implicit_side(chk, prog)
   rule_h_matrix(chk, prog)
